@@ -97,8 +97,9 @@ def guard_origin(f, defs, g):
 
 def run_eof_bitstream(ctx):
     rid = "R-EOF"
-    ctx.rule(rid, "Bitstream.remaining_buf_bits is never decreased by a plain subtraction: every decrement goes through "
-                  "usize::checked_sub whose None case becomes Error::Io(UnexpectedEof) (end of data is a value, not a panic)")
+    ctx.rule(rid, "Bitstream.remaining_buf_bits is never decreased by an unguarded subtraction: every decrement goes through "
+                  "usize::checked_sub whose None case becomes Error::Io(UnexpectedEof), or is dominated by `remaining_buf_bits < n -> "
+                  "Err(UnexpectedEof)` on the same n (end of data is a value, not a panic)")
     bs = ctx.prog.crate("jxl_bitstream")
     ADT = "jxl_bitstream::bitstream::Bitstream"
     n = 0
@@ -119,7 +120,9 @@ def run_eof_bitstream(ctx):
                     defs = Defs(f)
                 how = store_kind(f, defs, st[2])
                 key = "counter-store:%s:%s" % (f.path, how)
-                if how.startswith("sub"):
+                if how.startswith("sub") and guarded_sub(f, defs, st, b):
+                    ctx.ok(rid, key + ":guarded", "plain subtraction behind `remaining_buf_bits < n -> Err`", nontrivial=True, fn=f)
+                elif how.startswith("sub"):
                     ctx.bad(rid, "counter-plain-sub:%s" % f.path, "remaining_buf_bits is decreased with a plain subtraction: underflow (panic or wrap) "
                             "instead of an UnexpectedEof error when the data ends", fn=f, pos=st[3])
                 else:
@@ -134,11 +137,53 @@ def run_eof_bitstream(ctx):
         has_cs = any(callee(t) and callee(t)["fn"] == "core::num::<impl usize>::checked_sub" for _, t in f.calls())
         has_eof = any(st[0] == "=" and st[2][0] == "agg" and st[2][1][0] == "adt" and st[2][1][1] == "core::io::error::ErrorKind" and st[2][1][2] == "UnexpectedEof"
                       for blk in f.blocks for st in blk[0])
+        if not has_cs and has_eof:
+            # the explicit form: `if self.remaining_buf_bits < n { return Err(UnexpectedEof) }` dominating the decrement
+            from .. import validation
+            cs = [c for c in validation.checks(f) if "remaining_buf_bits" in str(c["subject"]) and c["op"] in ("<", "<=")
+                  or "remaining_buf_bits" in str(c["other"]) and c["op"] in (">", ">=")]
+            has_cs = bool(cs)
         if has_cs and has_eof:
-            ctx.ok(rid, "eof-is-error:" + nm, "checked_sub + ErrorKind::UnexpectedEof", nontrivial=True, fn=f)
+            ctx.ok(rid, "eof-is-error:" + nm, "checked_sub (or an explicit `< n -> Err` test) + ErrorKind::UnexpectedEof", nontrivial=True, fn=f)
         else:
             ctx.bad(rid, "eof-is-error:" + nm, "Bitstream::%s no longer turns running out of bits into Error::Io(UnexpectedEof) (checked_sub %s, UnexpectedEof %s)" % (nm, has_cs, has_eof), fn=f)
     ctx.floor(rid + ".counter-stores", 6)
+
+
+def guarded_sub(f, defs, st, bb):
+    """`self.remaining_buf_bits -= n` is dominated by a compare->error check rejecting `remaining_buf_bits < n` (same n)"""
+    from .. import validation
+    from ..intervals import value_class
+    # find the subtraction feeding the store
+    l = op_local(st[2][1]) if st[2][0] == "use" else None
+    sub = None
+    seen = set()
+    while l is not None and l not in seen:
+        seen.add(l)
+        d = defs.single(l)
+        if not d or d[2] != "assign":
+            break
+        rv = d[3][2]
+        if rv[0] == "bin" and rv[1] in ("Sub", "SubWithOverflow"):
+            sub = rv
+            break
+        if rv[0] == "use":
+            p = op_place(rv[1])
+            l = p[0] if p is not None else None
+            continue
+        break
+    if sub is None:
+        return False
+    n_name = validation.subject_name(f, defs, sub[3], use_names=False)
+    for c in validation.checks(f):
+        if not f.dominates(c["bb"], bb):
+            continue
+        subj, other, op = str(c["subject"]), c["other"], c["op"]
+        if "remaining_buf_bits" in subj and op == "<" and str(other) == str(n_name):
+            return True
+        if "remaining_buf_bits" in str(other) and op == ">" and subj == str(n_name):
+            return True
+    return False
 
 
 def store_kind(f, defs, rv, depth=0):
